@@ -303,12 +303,15 @@ PROPS = {
     ),
     "C05": dict(
         coq_targets=["Props/C05.vo"],
-        harness=[dict(pkg="h_agent", bin="c05", cases={"quick": 400, "thorough": 4000},
+        harness=[dict(pkg="h_agent", bin="c05", cases={"quick": 300, "thorough": 3000},
+                      checkers=["corr", "oracle"], timeout=3000),
+                 dict(pkg="h_agent", bin="c05r", cases={"quick": 300, "thorough": 3000},
                       checkers=["corr", "oracle"], timeout=3000)],
         allowed_axioms=[],
         trusted_base=[
             "a history is the merged log of the calls made on a recording NodePersistence (public trait) and of the frames read by the harness's remotes, in the order these happened on the single-threaded runtime; a frame is logged when the remote reads it (later than it was written), so the oracle's `persisted before published` is checked at the remote's side of the channel",
             "a crash at a point of the log is realised by starting a fresh runtime + agent on a store holding the replay of the store operations up to that point (the recording store is deterministic); the first life is ended by dropping every task (or by a clean stop) only at its end",
+            "second harness (c05r): the same runtime against a scripted agent (implements the public Agent trait) whose lanes do what lanes are allowed to do - answer a sync with the current state before the change that produced it has been reported, report changes up to three requests late - so that the runtime's own ordering is tested against adversarial but legal lane behaviour",
             "the real side is the whole stack: swimos_runtime's AgentRouteTask::run_agent_with_store (init task with store initialisers, read / write tasks) and swimos_agent's AgentModel with a derived lane model (persistent and transient value / map lanes, a value store and a map store fed by the lifecycle)",
         ],
         assumptions=[
